@@ -34,16 +34,18 @@ VERUS_NOTE = ("Trusted: Verus 0.2026.09.13 + Z3; vstd's specifications of Vec/Ve
 PROPS.update({
     "C03": {
         "title": "Every transaction ends in bounded time, whatever the peer and the link do",
-        "verus": [("send", ["O-C03-"])],
+        "verus": [("send", ["O-C03-"]), ("recv", ["O-C03-"])],
         "level": "proof",
-        "technique": "deductive verification (Verus/Z3) of an 'always armed' invariant over the sender's step functions",
+        "technique": "deductive verification (Verus/Z3) of 'always armed' invariants over the step functions of sender and receiver",
         "design_ref": "DESIGN.md 4/C03",
         "level_text": "Partial, proof of a NECESSARY condition on the SENDER: alive_inv = an active transaction always has a PDU to offer to the transport (has_pdu_to_send, whose "
                       "exact meaning is proved) or, in the two waiting sub-states, a running positive-acknowledgement or inactivity timer - the only things besides a PDU from the peer "
                       "that wake the transaction loop; and the Finished sub-state exists only with the ACK(Finished) pending. The invariant is preserved by send_pdu, process_pdu, "
                       "handle_timeout, cancel, handle_fault (on a non-terminated transaction) and re-established by resume. Together with C17 (a running timer reaches its limit "
-                      "after exactly limit x timeout and then the configured handler runs) this excludes a sender that waits forever for a silent peer. NOT decided: the bound "
-                      "itself as a number, the receiver, the daemon loop and the claim as a whole (liveness over schedules).",
+                      "after exactly limit x timeout and then the configured handler runs) this excludes a sender that waits forever for a silent peer. RECEIVER: inact_live = the "
+                      "inactivity timer of an active receiver is running; established by process_pdu and resume, preserved by send_pdu, handle_timeout, cancel, handle_fault and "
+                      "every function they call (new() starts it: by inspection); it implies the receiver's alive_inv (a PDU to offer, a running timer or a delayed NAK check). "
+                      "NOT decided: the bound itself as a number, the daemon loop and the claim as a whole (liveness over schedules).",
         "level_note": VERUS_NOTE,
     },
     "C04": {
